@@ -319,7 +319,7 @@ def static_property(pid, tier, seed, replay):
         violations.append(dict(kind="obligation", what="static report does not build", detail=rout[-2000:]))
     else:
         for r in rows:
-            if r["property"] != pid: continue
+            if pid not in r["property"].split(","): continue
             if r["offending"]:
                 new_items.append(r)
             if r["recorded"]:
@@ -372,7 +372,7 @@ def static_property(pid, tier, seed, replay):
                             rule="every probe is a minimal client program for one escape route (expected to be rejected with a specific error code) or its compiling twin differing in the offending line; non-trivial = must-not-compile probes",
                             samples=samples or ["(no probes)"],
                             probe_disagreements=len(probe_fail),
-                            static_rules=[dict(rule=r["rule"], offending=r["offending"], recorded_findings=r["recorded"]) for r in (rows or []) if r["property"] == pid],
+                            static_rules=[dict(rule=r["rule"], offending=r["offending"], recorded_findings=r["recorded"]) for r in (rows or []) if pid in r["property"].split(",")],
                             theorems=evidence.get("theorems", []),
                             exhaustive=True,
                             timings={k: v for k, v in evidence.items() if k.endswith("_s")}),
@@ -429,7 +429,7 @@ def own_property(pid, tier, seed, replay):
     out_lines = []; rc = 0
     # the harness enumerates a fixed list of shapes x paths; a run that printed fewer lines than the
     # registered minimum means a path crashed or was skipped
-    MIN_LINES = 340
+    MIN_LINES = 440
     if fails or crashed:
         payload = dict(property=pid, kind="direct violation: the real crate dropped a payload zero or several times, or returned values at other than their declared positions",
                        lines=[l for l, _ in fails[:40]], why=[v for _, v in fails[:40]], crash=crashed,
@@ -518,6 +518,8 @@ def lean_obligations(pid, module, evidence, violations):
                                    [n for n, _ in thms if not (axmap.get(n) is not None and set(axmap[n]) <= ALLOWED_AXIOMS)] + bad_src)))
     return ok, len(thms), discharged
 
+STATIC_HALF = {"C04", "C07", "C13", "C17"}
+
 def t1_property(pid, tier, seed, replay):
     t0 = time.time()
     cfg = PROPS[pid]
@@ -529,6 +531,12 @@ def t1_property(pid, tier, seed, replay):
     if replay:
         return do_replay(pid, cfg, replay)
 
+    if pid in STATIC_HALF:
+        # the table theorems of this property are about the fact table: regenerate it first
+        ok_t, tout, tdt = run_translator()
+        evidence["translator_s"] = round(tdt, 1)
+        if not ok_t:
+            violations.append(dict(kind="translator", what="translator failed", detail=tout))
     lean_ok, n_obl, n_dis = lean_obligations(pid, module, evidence, violations)
     h_ok, h_out, h_dt = build_harness()
     evidence["harness_build_s"] = round(h_dt, 1)
@@ -603,6 +611,22 @@ def t1_property(pid, tier, seed, replay):
             elif len(direct) < 200:
                 direct.append(dict(case=c[idx], impl=a[idx], model=m[idx], message=msg, source=fam))
 
+    # static half (C04, C07, C13, C17): the rules over the fact table regenerated from the source
+    static_rows = []
+    if pid in STATIC_HALF:
+        if True:
+            rows, rout = static_report()
+            if rows is None:
+                violations.append(dict(kind="obligation", what="static report does not build", detail=rout[-2000:]))
+            else:
+                static_rows = [r for r in rows if pid in r["property"].split(",")]
+                for r in static_rows:
+                    if r["offending"]:
+                        n_direct_seen += 1
+                        direct.append(dict(case="(static) " + r["rule"], impl="; ".join(r["offending"]), model=None,
+                                           message=f"static rule over the regenerated fact table: {r['rule']}: " + "; ".join(r["offending"]), source="static"))
+        evidence["static_rules"] = [dict(rule=r["rule"], offending=r["offending"]) for r in static_rows]
+
     n_dis_total = len(disagreements)
     disagreements = [d for d in disagreements if d]
     n_direct_total = n_direct_seen
@@ -671,6 +695,7 @@ def t1_property(pid, tier, seed, replay):
                   known_finding_hits=known_hits,
                   distribution=dist,
                   theorems=evidence.get("theorems", []),
+                  static_rules=evidence.get("static_rules", []),
                   exhaustive=True,
                   timings={k: v for k, v in evidence.items() if k.endswith("_s")},
               ),
@@ -690,6 +715,15 @@ def do_replay(pid, cfg, path):
     case = j.get("case") or (j.get("first_disagreement") or {}).get("case")
     if not case:
         print(json.dumps(j, indent=1)); return 0
+    if case.startswith("(static)"):
+        # a static-rule violation: regenerate the fact table from /repo and re-evaluate the rules
+        print(json.dumps(j, indent=1)[:3000])
+        ok_t, tout, _ = run_translator()
+        rows, rout = static_report() if ok_t else (None, tout)
+        bad = [r for r in (rows or []) if pid in r["property"].split(",") and r["offending"]]
+        for r in bad: print("now:", r["rule"], "->", "; ".join(r["offending"]))
+        if not bad: print("now: no offending item")
+        return 1 if bad or rows is None else 0
     ok, out, dt = build_harness()
     lean_build(["hlv-driver"])
     if ";T=" in case:
